@@ -40,6 +40,18 @@ CLAIMED = {
         "(callers use >= 32 bytes). range_strp/range_strf are not modelled.",
    technique="Lean 4 proof (symbolic evaluation of the parser on printed digit strings, induction over digit lists) + differential correspondence check",
    design="§5 C18"),
+ "C15": dict(
+   text="Lean theorems (Echse.Props.C15) over the transcribed model of scale.c with the data tables regenerated "
+        "from the source on every run: for each of the ten Hijri scales and every day of 1901-2099, round trip in "
+        "both directions, consecutive days map to consecutive dates, reported month length = distance of first "
+        "days, weekday commutes, dates outside a table's coverage are rejected (kernel enumeration of the finite "
+        "domain, lifted by lemmas; a sorted-table lemma for the two table scales). Model tied to the C code by a "
+        "differential run through the public API (all days x 10 scales in thorough), and the bijection statements "
+        "are evaluated on the implementation's answers directly.",
+   note="Trusted: Lean kernel, tools/gen.py (tables), harness hx_cal.c, Python datetime for the Gregorian side of "
+        "the oracle. Coverage of a table scale is defined as [first entry, last entry) of its table.",
+   technique="Lean 4 proof by complete kernel enumeration (decide +kernel over a splitting combinator) and a sorted-table induction + differential correspondence check",
+   design="§5 C15"),
 }
 
 checks = []
